@@ -10,10 +10,10 @@ def run(ctx):
     ctx.rule = ("M: see MC_Stream / MC_Fault; T: one session = one input with all its fault placements (or one record with all "
                 "writer-failure offsets); the consumer never stops, an iterator that does not end within len(clean)+64 items is unbounded")
     ctx.assumptions += ["stdlib semantics written down in MC_Fault (Scanner hands out the partial last line, ReadString returns it with the error)"]
-    ctx.model_check("MC_Stream", "MC_Stream_t" if thorough else "MC_Stream_q", workers=16, heap="8g")
+    ctx.model_check("MC_Stream", "MC_Stream_t7" if thorough else "MC_Stream_t", workers=16, heap="12g", timeout=3400)
     ctx.model_check("MC_Fault", "MC_Fault_ok", workers=8)
     if thorough:
-        cross.leg(ctx, "fault-drive", [8, 5000])
+        cross.leg(ctx, "fault-drive", [14, 6000])
     else:
         cross.leg(ctx, "fault-drive", [2, 400])
     ctx.exhaustive = True
